@@ -126,7 +126,7 @@ def print_assumptions(pid, theorems):
             res[name.strip()] = "closed"
         else:
             axs = re.findall(r"^([A-Za-z_][\w.']*)\s*:", rest, flags=re.M)
-            res[name.strip()] = sorted(set(axs))
+            res[name.strip()] = sorted(set(a for a in axs if a != "Axioms"))     # "Axioms:" is the header line
     return res
 
 
